@@ -127,7 +127,7 @@ fn permutation(n: usize, mut k: usize) -> Vec<usize> {
     out
 }
 
-fn scenario(kind: usize, behs: &[Beh], order: usize, track: bool) -> Out {
+fn scenario(kind: usize, behs: &[Beh], order: usize, track: bool, sync: bool) -> Out {
     let mut w = World::new(Chooser::default_run());
     w.track_states = track;
     let (req, target) = request(kind);
@@ -182,6 +182,7 @@ fn scenario(kind: usize, behs: &[Beh], order: usize, track: bool) -> Out {
         false
     });
     let start = w.now;
+    w.sync_api = sync;
     let call = w.call_put_raw(a, req, None);
     let h = w.now + 60 * SEC;
     w.run_until(h, |w, ev| {
@@ -264,10 +265,12 @@ fn beh_name(b: &Beh) -> String {
     }
 }
 
-fn judge(kind: usize, behs: &[Beh], order: usize, o: &Out, out: &mut Partial) {
+fn judge(kind: usize, behs: &[Beh], order: usize, sync: bool, o: &Out, out0: &mut Partial) {
+    let mut local = Partial::default();
+    let out = &mut local;
     let names: Vec<String> = behs.iter().map(beh_name).collect();
-    let replay = json!({"part": "small", "kind": kind, "behs": names, "order": order});
-    let ctx = format!("{} put, endpoints {names:?}, arrival order #{order}: result {}", KINDS[kind], o.result);
+    let replay = json!({"part": "small", "kind": kind, "behs": names, "order": order, "sync": sync});
+    let ctx = format!("{}{} put, endpoints {names:?}, arrival order #{order}: result {}", if sync { "[blocking Dht API] " } else { "" }, KINDS[kind], o.result);
     let shape = |behs: &[Beh]| {
         // canonical multiset of behaviours (for the finding key)
         let mut v: Vec<String> = behs.iter().map(beh_name).collect();
@@ -280,6 +283,7 @@ fn judge(kind: usize, behs: &[Beh], order: usize, o: &Out, out: &mut Partial) {
     if o.pending {
         // a put that never resolves is C06's finding; here it is simply not an instance
         out.add("non_instances_pending", 1);
+        out0.merge(local);
         return;
     }
     for wmsg in &o.wrong_writes {
@@ -305,6 +309,11 @@ fn judge(kind: usize, behs: &[Beh], order: usize, o: &Out, out: &mut Partial) {
             out.violation(format!("concurrency-error-without-3xx/{}", KINDS[kind]), format!("{ctx}: no endpoint answered 301/302"), replay.clone());
         }
     }
+    for v in std::mem::take(&mut local.violations) {
+        out0.violation(format!("{}{}", v.key, if sync { "/blocking-api" } else { "" }), v.desc, v.replay);
+    }
+    local.counts.remove("violations_total");
+    out0.merge(local);
 }
 
 /// Two overlapping writes to ONE target with different payloads (two announce_peer calls with
@@ -534,8 +543,8 @@ fn run(tier: Tier, shard: usize, nshards: usize, _seed: u64) -> Partial {
     let mut idx = 0usize;
     // determinism self-check on one scenario
     if shard == 0 {
-        let a = scenario(1, &[Beh::Ack, Beh::Err(301), Beh::Silent], 1, true);
-        let b = scenario(1, &[Beh::Ack, Beh::Err(301), Beh::Silent], 1, true);
+        let a = scenario(1, &[Beh::Ack, Beh::Err(301), Beh::Silent], 1, true, false);
+        let b = scenario(1, &[Beh::Ack, Beh::Err(301), Beh::Silent], 1, true, false);
         assert!(a.result == b.result && a.steps == b.steps && a.digests.len() == b.digests.len(), "MACHINERY: scenario is not deterministic");
     }
     for n in 1..=max_n {
@@ -559,7 +568,15 @@ fn run(tier: Tier, shard: usize, nshards: usize, _seed: u64) -> Partial {
                         continue;
                     }
                     let track = idx % 16 == shard % 16;
-                    let o = scenario(kind, &behs, order, track);
+                    if order == 0 && n <= 3 {
+                        // the same put through the blocking API
+                        let o = scenario(kind, &behs, order, false, true);
+                        out.add("executions", 1);
+                        out.add("blocking_api_executions", 1);
+                        out.add("transitions", o.steps);
+                        judge(kind, &behs, order, true, &o, &mut out);
+                    }
+                    let o = scenario(kind, &behs, order, track, false);
                     out.add("executions", 1);
                     out.add("transitions", o.steps);
                     out.digests.extend(o.digests.iter());
@@ -568,7 +585,7 @@ fn run(tier: Tier, shard: usize, nshards: usize, _seed: u64) -> Partial {
                     if o.contacted > 0 {
                         out.add("writes_sent", 1);
                     }
-                    judge(kind, &behs, order, &o, &mut out);
+                    judge(kind, &behs, order, false, &o, &mut out);
                 }
             }
         }
@@ -624,8 +641,9 @@ fn replay(v: &Value) -> Result<Option<Violation>, String> {
         let kind = v.get("kind").and_then(|x| x.as_u64()).ok_or("kind")? as usize;
         let order = v.get("order").and_then(|x| x.as_u64()).ok_or("order")? as usize;
         let behs: Vec<Beh> = v.get("behs").and_then(|b| b.as_array()).ok_or("behs")?.iter().filter_map(|x| x.as_str().and_then(parse_beh)).collect();
-        let o = scenario(kind, &behs, order, false);
-        judge(kind, &behs, order, &o, &mut out);
+        let sync = v.get("sync").and_then(|x| x.as_bool()).unwrap_or(false);
+        let o = scenario(kind, &behs, order, false, sync);
+        judge(kind, &behs, order, sync, &o, &mut out);
     }
     Ok(out.violations.into_iter().next())
 }
